@@ -822,7 +822,9 @@ func (fa *Facts) KnownBool(b *ssa.BasicBlock, v ssa.Value, want bool) bool {
 // is unambiguous (named results and variables spilled because of defer or
 // closures), through ChangeType/ChangeInterface/MakeInterface-free copies and
 // single-edge phis.
-func resolve(v ssa.Value) ssa.Value {
+func resolve(v ssa.Value) ssa.Value { return resolveRec(v, nil) }
+
+func resolveRec(v ssa.Value, visiting map[*ssa.Phi]bool) ssa.Value {
 	for depth := 0; depth < 8; depth++ {
 		switch x := v.(type) {
 		case *ssa.UnOp:
@@ -852,8 +854,21 @@ func resolve(v ssa.Value) ssa.Value {
 			// phi of identical operands
 			var first ssa.Value
 			same := true
+			if visiting[x] {
+				return v
+			}
+			if visiting == nil {
+				visiting = map[*ssa.Phi]bool{}
+			}
+			visiting[x] = true
 			for _, e := range x.Edges {
-				re := resolve(e)
+				if e == ssa.Value(x) {
+					continue // a loop-carried copy of itself
+				}
+				re := resolveRec(e, visiting)
+				if re == ssa.Value(x) {
+					continue
+				}
 				if first == nil {
 					first = re
 				} else if !sameValue(first, re) {
